@@ -27,6 +27,7 @@ DEFAULT_PROFILE = {
     'p_formula': .65, 'p_arr': .12, 'p_name': .2, 'p_cross': .35,
     'p_text': .08, 'p_bool': .06, 'p_frac': .15, 'p_err': .05,
     'p_back': 0.0, 'depth': 2, 'p_alias': 0.0, 'p_arrlit': 0.0,
+    'p_refop': 0.0,
     'w_ref': 5, 'w_num': 1, 'w_op': 4, 'w_aggr': 4, 'w_if': 2, 'w_iferror': 1,
     'w_iserror': .5, 'w_name': 1.5, 'w_ifs': 0, 'w_ifna': 0,
 }
@@ -161,6 +162,14 @@ class Gen:
 
     def range_arg(self, i, host):
         rng = self.rng
+        if rng.chance(self.p.get('p_refop', 0)):
+            a = self.pick_rect(i, host)
+            if a is not None:
+                # a second rectangle on the same sheet, overlapping or not
+                for _ in range(8):
+                    b2 = self.pick_rect(i, (a[1], a[2]))
+                    if b2 is not None and (b2[1], b2[2]) == (a[1], a[2]):
+                        return [rng.pick(['u', 'u', 'x']), a, b2]
         if rng.chance(self.p.get('p_arrlit', 0)):
             h, w = rng.pick([(1, 2), (2, 1), (2, 2), (1, 3)])
             return ['arr', [[rng.randrange(0, 9) for _ in range(w)]
